@@ -24,7 +24,8 @@
 (***************************************************************************)
 EXTENDS Naturals, Sequences, FiniteSets, TLC
 
-CONSTANTS Entries, Final, Cap, BpRules, MaxCmds, MaxRuns
+CONSTANTS Entries, Final, Cap, BpRules, MaxCmds, MaxRuns,
+          AllowBadRun     \* whether the controller may also start a run with a rule the grammar does not define
 
 VARIABLES bps, isDone, gen, th, chan, ctl, ncmd, emptyAtRunLoad,
           hist, sentBp, wakes        \* history variables (hidden by the VIEW when model checking)
@@ -33,7 +34,9 @@ vars == <<bps, isDone, gen, th, chan, ctl, ncmd, emptyAtRunLoad, hist, sentBp, w
 view == <<bps, isDone, gen, th, chan, ctl, ncmd, emptyAtRunLoad, sentBp, wakes>>
 
 Runs == 1..MaxRuns
-NoThread == [pc |-> "none", k |-> 0, token |-> FALSE, aborted |-> FALSE]
+\* bad: started with an undefined rule (its one entry is reported to the listener, then the VM panics);
+\* panicked: the thread died that way, so join() on it fails
+NoThread == [pc |-> "none", k |-> 0, token |-> FALSE, aborted |-> FALSE, bad |-> FALSE, panicked |-> FALSE]
 FirstPc == IF Entries = <<>> THEN "finsend" ELSE "load"
 
 Init ==
@@ -57,8 +60,9 @@ TLoadDone(g) ==
 
 TLookup(g) ==
   /\ th[g].pc = "lookup"
-  /\ th' = [th EXCEPT ![g] = IF Entries[@.k] \in bps THEN [@ EXCEPT !.pc = "send"] ELSE Advance(@)]
-  /\ Log("par", g, "Lookup", IF Entries[th[g].k] \in bps THEN "hit" ELSE "miss")
+  /\ th' = [th EXCEPT ![g] = IF @.bad THEN [@ EXCEPT !.pc = "exited", !.panicked = TRUE]      \* undefined rule: the VM panics
+                             ELSE IF Entries[@.k] \in bps THEN [@ EXCEPT !.pc = "send"] ELSE Advance(@)]
+  /\ Log("par", g, "Lookup", IF th[g].bad THEN "panic" ELSE IF Entries[th[g].k] \in bps THEN "hit" ELSE "miss")
   /\ UNCHANGED <<bps, isDone, gen, chan, ctl, ncmd, emptyAtRunLoad, sentBp, wakes>>
 
 TSend(g) ==
@@ -105,12 +109,15 @@ Parser(g) == TLoadDone(g) \/ TLookup(g) \/ TSend(g) \/ TPark(g) \/ TFinSend(g) \
 \* ------------------------------------------------------------------ controller
 CmdOk == ctl = "idle" /\ ncmd < MaxCmds
 
-CStartRun ==
+\* no handle: before the first run, and after a join that failed because the previous thread had panicked
+NoHandle == gen = 0 \/ th[gen].pc = "gone"
+CStartRun(isBad) ==
   /\ CmdOk /\ gen < MaxRuns
-  /\ ctl' = IF gen = 0 THEN "runreset" ELSE "runload"
+  /\ ctl' = IF NoHandle THEN "runreset" ELSE "runload"
   /\ ncmd' = ncmd + 1
-  /\ Log("ctl", gen, "cmd", "run")
-  /\ UNCHANGED <<bps, isDone, gen, th, chan, emptyAtRunLoad, sentBp, wakes>>
+  /\ th' = [th EXCEPT ![gen + 1].bad = isBad]          \* remembered in the slot of the thread to be spawned
+  /\ Log("ctl", gen, "cmd", IF isBad THEN "runbad" ELSE "run")
+  /\ UNCHANGED <<bps, isDone, gen, chan, emptyAtRunLoad, sentBp, wakes>>
 
 CRunLoad ==
   /\ ctl = "runload"
@@ -130,10 +137,13 @@ CRunUnpark ==
   /\ Log("ctl", gen, "RunUnpark", 0)
   /\ UNCHANGED <<bps, isDone, gen, chan, ncmd, emptyAtRunLoad, sentBp>>
 
+\* join() on a thread that panicked fails: run() returns the error, nothing is reset or spawned, the handle is gone
 CRunJoin ==
-  /\ ctl = "runjoin" /\ th[gen].pc = "exited" /\ ctl' = "runreset"
-  /\ Log("ctl", gen, "RunJoin", 0)
-  /\ UNCHANGED <<bps, isDone, gen, th, chan, ncmd, emptyAtRunLoad, sentBp, wakes>>
+  /\ ctl = "runjoin" /\ th[gen].pc = "exited"
+  /\ ctl' = IF th[gen].panicked THEN "idle" ELSE "runreset"
+  /\ th' = IF th[gen].panicked THEN [th EXCEPT ![gen].pc = "gone", ![gen + 1].bad = FALSE] ELSE th
+  /\ Log("ctl", gen, "RunJoin", IF th[gen].panicked THEN "panic" ELSE 0)
+  /\ UNCHANGED <<bps, isDone, gen, chan, ncmd, emptyAtRunLoad, sentBp, wakes>>
 
 CRunReset ==
   /\ ctl = "runreset" /\ isDone' = FALSE /\ ctl' = "spawn"
@@ -142,7 +152,8 @@ CRunReset ==
 
 CSpawn ==
   /\ ctl = "spawn" /\ gen' = gen + 1 /\ ctl' = "idle"
-  /\ th' = [th EXCEPT ![gen + 1] = [pc |-> FirstPc, k |-> 1, token |-> FALSE, aborted |-> FALSE]]
+  /\ th' = [th EXCEPT ![gen + 1] = [pc |-> IF @.bad THEN "load" ELSE FirstPc, k |-> 1, token |-> FALSE, aborted |-> FALSE,
+                                    bad |-> @.bad, panicked |-> FALSE]]
   /\ Log("ctl", gen + 1, "Spawn", 0)
   /\ UNCHANGED <<bps, isDone, chan, ncmd, emptyAtRunLoad, sentBp, wakes>>
 
@@ -153,8 +164,8 @@ CStartCont ==
 
 CContLoad ==
   /\ ctl = "contload"
-  /\ ctl' = IF isDone \/ gen = 0 THEN "idle" ELSE "contunpark"
-  /\ Log("ctl", gen, "ContLoad", IF isDone THEN "EofReached" ELSE IF gen = 0 THEN "RunRuleFirst" ELSE "ok")
+  /\ ctl' = IF isDone \/ NoHandle THEN "idle" ELSE "contunpark"
+  /\ Log("ctl", gen, "ContLoad", IF isDone THEN "EofReached" ELSE IF NoHandle THEN "RunRuleFirst" ELSE "ok")
   /\ UNCHANGED <<bps, isDone, gen, th, chan, ncmd, emptyAtRunLoad, sentBp, wakes>>
 
 CContUnpark ==
@@ -176,7 +187,7 @@ CBp(op, r) ==
   /\ UNCHANGED <<isDone, gen, th, chan, ctl, emptyAtRunLoad, sentBp, wakes>>
 
 Controller ==
-  \/ CStartRun \/ CRunLoad \/ CRunStore \/ CRunUnpark \/ CRunJoin \/ CRunReset \/ CSpawn
+  \/ CStartRun(FALSE) \/ (AllowBadRun /\ CStartRun(TRUE)) \/ CRunLoad \/ CRunStore \/ CRunUnpark \/ CRunJoin \/ CRunReset \/ CSpawn
   \/ CStartCont \/ CContLoad \/ CContUnpark \/ CRecv
   \/ \E r \in BpRules : CBp("add", r) \/ CBp("del", r)
   \/ CBp("delall", "")
